@@ -188,6 +188,10 @@ for _nm in ('AND', 'EOR', 'SUB', 'RSB', 'ADD', 'ADC', 'SBC', 'RSC', 'ORR', 'BIC'
 
 
 def _subs_t1(M, f):
+    if M.is_hyp():
+        # encoding T1 tests CurrentModeIsHyp() in its encoding-specific decode, i.e. before the condition: with a failing condition the UNDEFINED
+        # instruction may be a NOP or take the exception (IMPLEMENTATION DEFINED; the ARM encodings test it inside ConditionPassed())
+        raise Undef('SUBS PC, LR (Thumb) in Hyp mode')
     unp(M.in_it_block() and not M.last_in_it_block())
     return dict(n=14, opcode=2, imm32=f['i'], register_form=False)
 
@@ -351,9 +355,11 @@ reg('LDRB_reg_hint', _pld_reg_t1, x_pld)
 
 # ------------------------------------------------------------------------------------------------ coprocessor instructions
 def coproc_accepted(M, cp):
-    """Coproc_Accepted() for cp0..cp13 (cp10/11 never get here); cp14/cp15 have their own decode hooks"""
-    if cp in (14, 15):
-        raise Skip('cp14/cp15 instruction decode')
+    """Coproc_Accepted() (B1.11.? shared pseudocode) for cp0..cp13 (cp10/11 never get here) and cp15; cp14 has its own decode and is not modelled"""
+    if cp == 14:
+        raise Skip('cp14 instruction decode')
+    if cp == 15:
+        return coproc_accepted_cp15(M)
     if M.sec_ext():
         if not M.is_secure() and not (M.s['nsacr'] >> cp) & 1:
             raise Undef('NSACR denies the coprocessor')
@@ -371,6 +377,41 @@ def coproc_accepted(M, cp):
             raise HypTrap()
         raise Undef('HCPTR trap in Hyp mode')
     hook(M, 'CPxInstrDecode')
+
+
+def coproc_accepted_cp15(M):
+    """the cp15 leg of Coproc_Accepted(): only MCR / MRC and MCRR / MRRC (conditional forms) exist; HSTR.Tn and HCR.TIDCP trap Non-secure accesses from
+    outside Hyp mode to Hyp mode with the access described in the HSR; everything else is left to the (mock) CP15 decode hook"""
+    w = M.word
+    cond_ok = (w >> 28) != 15 if not M.thumb else (w >> 28) != 15      # (the Thumb encodings carry 1110 / 1111 in the same place: the "2" forms are the 1111 ones)
+    if ((w >> 24) & 15) == 0b1110 and (w >> 4) & 1 and cond_ok:
+        crn, two_reg = (w >> 16) & 15, False
+    elif ((w >> 21) & 0x7F) == 0b1100010 and cond_ok:
+        crn, two_reg = w & 15, True
+    else:
+        raise Undef('cp15 has no such instruction')
+    if crn == 4:
+        raise Unpred('CP15 c4')
+    guest = M.sec_ext() and M.virt_ext() and not M.is_secure() and not M.is_hyp()
+
+    def iss():
+        if two_reg:
+            return (((w >> 4) & 15) << 16) | (((w >> 16) & 15) << 10) | (((w >> 12) & 15) << 5) | ((w & 15) << 1) | ((w >> 20) & 1)
+        return (((w >> 5) & 7) << 17) | (((w >> 21) & 7) << 14) | (((w >> 16) & 15) << 10) | (((w >> 12) & 15) << 5) | ((w & 15) << 1) | ((w >> 20) & 1)
+
+    def trap():
+        if not M.privileged():
+            # InstrIsPL0Undefined(): a mock hook on the stock target; the hooked target says no
+            hook(M, 'InstrIsPL0Undefined')
+        M.write_hsr(0b000100 if two_reg else 0b000011, iss(), M.cur_cond, True)
+        raise HypTrap()
+    if guest and crn != 14 and (M.s['hstr'] >> crn) & 1:
+        trap()
+    if guest and (M.s['hcr'] >> 20) & 1 and not two_reg:
+        crm = w & 15
+        if (crn == 9 and crm in (0, 1, 2, 5, 6, 7, 8)) or (crn == 10 and crm in (0, 1, 4, 8)) or (crn == 11 and crm in (0, 1, 2, 3, 4, 5, 6, 7, 8, 15)):
+            trap()
+    hook(M, 'CP15InstrDecode')
 
 
 def cplog(M, *entry):
